@@ -11,8 +11,15 @@ LEVEL_TEXT = ('Service._provider_execute is verified for k = 1..4 providers (the
               'test-pinned finding.')
 LEVEL_NOTE = ('Provider client classes are replaced by a stub class reached through the real lookup path (attribute of bitcoinlib.services); '
               'provider priorities are distinct (random tie-breaking not modelled; every priority order is covered by the symmetry of the symbolic '
-              'outcomes). NOT covered: the cache round trip (Cache.* is SQL - see C08), the other query wrappers, time-outs as a separate class '
+              'outcomes). The cache round trip (Cache.* is SQL, outside the verifier) is covered by a BOUNDED native stand-in (bounded/c20_cache.py, never counted as proved): '
+              'a scripted in-process provider on the offline test network, chains of 1..4 (thorough 5) transactions with every block-height sharing pattern, every after_txid, '
+              'provider up and down; answers from a warm cache must equal what was stored. NOT covered: getutxos / estimatefee / getblock cache paths, time-outs as a separate class '
               '(a time-out is an exception of the provider call).')
-NOT_COVERED = ['Cache.gettransactions / store_* (SQL)', 'gettransaction(s), getutxos, getrawtransaction, sendrawtransaction, estimatefee, blockcount wrappers']
+NOT_COVERED = ['Cache.* as proofs (bounded harness for gettransactions / gettransaction only)', 'getutxos, getrawtransaction, sendrawtransaction, estimatefee, getblock wrappers']
+
+
+def extra_checks(tier, seed, opens):
+    from bounded import c20_cache
+    return [c20_cache.run(tier, seed, opens)]
 TRUSTED = ['provider oracle model (contracts/services.py)', 'random.random() tie-break not modelled']
 FUZZ_QUICK = 200
